@@ -24,6 +24,7 @@ EXTRA_SYMS = ['>>>\tq = 1', '>>> \xe9 = 1', '\xa0>>> n = 1', '>>> w = 1\x0c', 'p
               '>>> long_name_' + 'x' * 180 + ' = 1', 'w' * 200, '...   ', '>>>  two_blanks = 1', '>>> a = 1  \t ', '\x1c', '>>> b = "\x85"', ' \t ', '>>> c = 1\r',
               '>>> # xdoctest: +REQUIRES(module:\xe9)', '... # only a comment', '>>> d = (1,  # comment', '...      2)',
               # a prompt is followed by an ASCII blank (or nothing): other white space after the three characters makes it ordinary text
+              '    \xe9t\xe9 (a want that starts with a non-ASCII letter)', '\xdcberblick: prose', '        \u03b1\u03b2 deep', '    \u2192 3', '\u65e5\u672c',
               '...\u3000rest of a sentence', '>>>\u3000wide blank', '...\xa0no-break', '>>>\u2003em', '    ...\u3000indented', '...\x0b', '>>>\x1f']
 
 
